@@ -165,7 +165,7 @@ def c12_groups(tier, tag='C12'):
         lem = [(3, 7), (2, 10), (4, 8), (16, 2), (32, 1), (1, 30), (2, 16), (5, 6)]
         wrap = [(3, 7, 1), (2, 10, 1)]
     else:
-        dec = [(l, b) for (l, b) in valid_layouts() if l <= 6] + [(8, 4), (16, 2)]
+        dec = [(l, b) for (l, b) in valid_layouts() if l <= 6] + [(8, 4)]      # (16,2): 17 loops-worth of rows, cbmc > 30 min
         lem = valid_layouts()
         wrap = [(3, 7, 1), (2, 10, 1), (3, 7, 2), (2, 10, 2), (4, 8, 1), (2, 10, 3)]
     for (L, B) in dec:
@@ -643,7 +643,7 @@ PROPS = {
                        'TLWE wrapper against that contract; TGswParams constructor fields; loop-free arithmetic lemma for the layout grid.',
         'assumptions': STD_ASSUME + [
             'AVX2 inline-assembly path of tGswTorus32PolynomialDecompH (optimised builds) is not seen; "vectorised and scalar builds give identical digits" is not decided',
-            'layouts outside the enumerated grid are not covered (quick: 4 layouts for the function contract, 8 for lemma/constructor; thorough: all valid layouts for lemma/constructor, l <= 6 and (8,4),(16,2) for the function contract)',
+            'layouts outside the enumerated grid are not covered (quick: 4 layouts for the function contract, 8 for lemma/constructor; thorough: all valid layouts for lemma/constructor, l <= 6 and (8,4) for the function contract; (16,2) times out after 30 min)',
         ],
         'trusted': [],
     },
